@@ -1465,6 +1465,13 @@ func init() {
 			}
 			return v, nil
 		}},
+		"parseFloat": {1, []string{"s"}, func(e *Evaluator, a []interface{}) (interface{}, error) {
+			v, err := strconv.ParseFloat(strings.TrimSpace(a[0].(string)), 64)
+			if err != nil {
+				return nil, errf("parseFloat failed")
+			}
+			return v, nil
+		}},
 		"toString": {1, []string{"*"}, func(e *Evaluator, a []interface{}) (interface{}, error) {
 			s, ok := FormatValue(a[0])
 			if !ok {
